@@ -1,12 +1,12 @@
 """C01 — script functions mean the same eagerly, as a graph, and as Python."""
 import re
 
-MODULES = ["contracts.c01_analysis", "contracts.c01_converter"]
+MODULES = ["contracts.c01_analysis", "contracts.c01_converter", "contracts.c11_eager"]
 
 
 def INCLUDE(name):
     m = re.match(r"(C\d\d)\.", name)
-    return m is None or m.group(1) == "C01"
+    return m is None or m.group(1) == "C01" or name.startswith("C11.eager")
 
 
 ANALYSIS_CORPUS = [
@@ -72,6 +72,9 @@ sys.exit(1 if bad else 0)
 
 def replay(ob):
     name = ob["name"]
+    if name.startswith("C11."):
+        from props import C11
+        return C11.replay(ob)
     if ".converter.loop" in name or ".converter.if" in name:
         return "MODE = 'alignment'\n" + LOOP_REPLAY
     if ".analysis." in name or name.startswith("AstAnalyzer.") or name.startswith("_used_vars"):
